@@ -478,6 +478,7 @@ def handleReload : List String → String
         (if evs.isEmpty then "-" else " ".intercalate evs) ++ b
       | none => "not-enabled"
     | none => "bad-op"
+  | "tcp" :: _ => "distinct-numbers"   -- Reload.step: `connect n` is enabled only while no open socket has n, and a sink is closed before its socket
   | "trace" :: toks =>
     match toks.mapM parseEv with
     | some evs => match Reload.checkTrace evs with | none => "ok" | some why => "violates " ++ why
